@@ -17,7 +17,20 @@ def check_trace_rules(o):
     ops = field(o, "ops").split(",")
     gc = list(map(int, field(o, "gc").split(",")))
     insp = list(map(int, field(o, "insp").split(",")))
+    addr = list(map(int, field(o, "addr").split(",")))
     problems = []
+    # block address inside a span: constant within a batch, +8 (one hasher cycle) at every RESPAN,
+    # and the END row still carries the address of the last batch
+    for i, op in enumerate(ops):
+        if i + 1 >= len(addr):
+            break
+        if op == "respan":
+            if addr[i + 1] != addr[i] + 8:
+                problems.append("RESPAN at row %d does not advance the block address by 8 (%d -> %d)" % (i, addr[i], addr[i + 1]))
+                break
+        elif insp[i] == 1 and addr[i + 1] != addr[i]:
+            problems.append("block address changes inside a batch at row %d (%d -> %d)" % (i, addr[i], addr[i + 1]))
+            break
     if field(o, "halts") != "true":
         problems.append("non-HALT row after the first HALT")
     if field(o, "lasthash") != field(o, "proghash"):
